@@ -29,9 +29,38 @@ func closeraceExec(ops []string) (dops []string, res []string) {
 		if err != nil {
 			panic(err)
 		}
+		// the lock-region events (and the flusher's flush.done) in the order they happen: followed in the blocking
+		// model Sched by the driver (suite sched); everything else is hidden there
+		var obsMu sync.Mutex
+		var obs []string
+		rotated := false
 		vhook.Install(&vhook.Handlers{Event: func(name string, args ...any) {
 			if name == "flush.begin" && slow > 0 {
 				time.Sleep(time.Duration(slow) * time.Millisecond)
+			}
+			obsMu.Lock()
+			defer obsMu.Unlock()
+			switch name {
+			case "commit.ts":
+				rotated = false
+				obs = append(obs, "clock")
+			case "rotate":
+				rotated = true
+				obs = append(obs, "capply-rot")
+			case "commit.applied":
+				if !rotated {
+					obs = append(obs, "capply")
+				}
+			case "commit.done":
+				obs = append(obs, "cfin")
+			case "flush.done":
+				obs = append(obs, "fdone")
+			case "close.begin":
+				obs = append(obs, "cllock")
+			case "close.drained":
+				obs = append(obs, "cldrained")
+			case "close.done":
+				obs = append(obs, "cldone")
 			}
 		}})
 		cfg := originium.Config{SkipListMaxLevel: 4, SkipListP: 0.5, MemtableByteThreshold: memthr, DataBlockByteThreshold: 40,
@@ -150,6 +179,23 @@ func closeraceExec(ops []string) (dops []string, res []string) {
 			}
 		}
 		os.RemoveAll(dir)
+		// the observed execution must be an execution of the blocking model (every Update is a Begin and a Commit)
+		obsMu.Lock()
+		entered := 0
+		for _, o := range obs {
+			if o == "clock" {
+				entered++
+			}
+		}
+		dops = append(dops, fmt.Sprintf("init %d %d", immbuf, entered))
+		res = append(res, "ok")
+		for _, o := range obs {
+			dops = append(dops, "obs "+o)
+			res = append(res, "ok")
+		}
+		obsMu.Unlock()
+		dops = append(dops, "closed")
+		res = append(res, "ok")
 		dops = append(dops, "expectok "+op)
 		res = append(res, out)
 	}
